@@ -24,6 +24,7 @@ PathInfoOK(e) == Utf8Valid(e, 1) /\ e # <<>> /\ e[1] = 47 /\ (Len(e) >= 2 => e[2
 ScriptOK(e) == Utf8Valid(e, 1) /\ (e = <<>> \/ (e[1] = 47 /\ e[Len(e)] # 47 /\ (Len(e) >= 2 => e[2] # 47)))
 QPairs(qs) == IF Utf8Valid(qs, 1) THEN ParseQuery(Utf8Dec(qs)) ELSE <<<<<<0 - 1>>, <<>>>>>>
 
+DoubleSlash(s) == Len(s) >= 2 /\ s[1] = 47 /\ s[2] = 47
 JudgeEnvRT(r) ==
   IF ~GivenOK(r) \/ r.err1 # "" \/ ~PathInfoOK(r.pi1) \/ ~ScriptOK(r.sn1) THEN "ok"
   ELSE IF r.err2 # "" THEN "EnvRTRaised"
@@ -37,8 +38,9 @@ DriftEnvRT(r) ==
   IF ~GivenOK(r) \/ r.err1 # "" \/ r.err2 # "" THEN TRUE
   ELSE /\ r.meth2 = r.meth1 /\ r.ctype2 = r.ctype1 /\ r.hdrs2 = r.hdrs1 /\ r.body2 = r.body1 /\ r.flags2 = r.flags1
        /\ (r.clen2 = r.clen1 \/ (r.clen1 = <<>> /\ r.clen2 = <<48>>))
-       /\ (Len(r.path) > 60 \/ ~Utf8Valid(DataBytes(r.path), 1) \/ r.pi1 = PathInfoOf(r.path))
-       /\ (Len(r.root) > 60 \/ ~Utf8Valid(DataBytes(r.root), 1) \/ r.sn1 = ScriptNameOf(r.root))
+       \* (a given "//..." is a network-path reference for urlsplit: outside the model)
+       /\ (Len(r.path) > 60 \/ DoubleSlash(r.path) \/ ~Utf8Valid(DataBytes(r.path), 1) \/ r.pi1 = PathInfoOf(r.path))
+       /\ (Len(r.root) > 60 \/ DoubleSlash(r.root) \/ ~Utf8Valid(DataBytes(r.root), 1) \/ r.sn1 = ScriptNameOf(r.root))
 
 \* ---------------------------------------------------------------- bind lines
 DefaultPort(scheme, port) == (scheme \in HTTPISH /\ port = <<56, 48>>) \/ (scheme \in HTTPSISH /\ port = <<52, 52, 51>>)
